@@ -656,6 +656,8 @@ func (p *contractParser) line(t string, no int) error {
 		if callee == "" || strings.ContainsAny(callee, " \t:") {
 			return fmt.Errorf("forbid needs a callee name")
 		}
+		direct := strings.Contains(callee, "!")
+		callee = strings.ReplaceAll(callee, "!", "")
 		cl, err := p.clause("false", no, false)
 		if err != nil {
 			return err
@@ -663,7 +665,7 @@ func (p *contractParser) line(t string, no int) error {
 		cl.Top = true
 		cl.Prop = tag
 		cl.Src = "forbid " + callee
-		c.Asserts = append(c.Asserts, CallAssert{Callee: callee, Ordinal: -1, Clause: cl, Forbid: true})
+		c.Asserts = append(c.Asserts, CallAssert{Callee: callee, Ordinal: -1, Clause: cl, Forbid: true, Direct: direct})
 	case "ghostset-at-entry":
 		as := strings.SplitN(rest, "=", 2)
 		if len(as) != 2 {
